@@ -128,7 +128,7 @@ func init() {
 }
 
 func init() {
-	const basis = " Nothing here decides the invariant itself over all schedules: that needs the spec-level argument (model checking of the specification), of which these rules are the implementation-side half (the Go takes the specification's steps) plus a table that pins the specification's safety-critical decisions."
+	const basis = " The rules of C01 (atomic critical sections) and C06 (reliable FIFO exactly-once links) are decided under this property too: the specification's invariants are argued for atomic labelled steps over such links, and the implementation inherits them only while the runtime provides both. Nothing here decides the invariant itself over all schedules: that needs the spec-level argument (model checking of the specification), of which these rules are the implementation-side half (the Go takes the specification's steps) plus a table that pins the specification's safety-critical decisions."
 	prop(&PropInfo{ID: "C09", Level: "other",
 		Explanation: "(KV-FIDELITY) every critical section of the generated Raft key-value store - servers and client -, every archetype table entry and every operator definition is the image of raftkvs.tla. (RAFT-DECISION) a protocol table over the specification itself: quorum = strict majority, vote granting (current term, up-to-date log compared with the voter's whole log, one vote per term), term adoption, the AppendEntries consistency check / truncate / append, match-index bookkeeping from acknowledgements, commit only of current-term entries agreed by a quorum, one-by-one application, a client is answered exactly when its entry is applied at the leader with the request's own index, the client numbers requests and drops responses whose index is not the current one, retries only on refusal / suspicion / timeout. Conditions are compared as boolean functions over their atoms (truth tables), so a change made consistently in the specification and the Go is still a mismatch. (RAFT-WIRING, LS-2PL, LS-CAP1) the per-server state, including the applied store sm / smDomain, is one copy shared by the server's five archetypes under strict 2PL.",
 		NotDecided:  "linearizability of all concurrent histories (a predicate over histories, schedules and crashes); duplicate execution of retried requests (the specification itself does not deduplicate: observed, not decided)." + basis,
